@@ -6,7 +6,7 @@ TARGETS = ["Base/Corr.vo", "Base/Fl.vo", "Base/Num.vo", "C01/Model.vo", "C01/Cor
            "C01/Spec.vo", "C01/ProofsList.vo", "C01/ProofsComb.vo", "C01/ProofsCoef.vo", "C01/ProofsJet.vo",
            "C01/ProofsRefuted.vo", "C01/Props.vo"]
 PROPS = ["C01/Props.v"]
-PARTIAL = ("Theorems are over the reals and about the hand-written register-file model coq/C01/Model.v: combinator algebra "
+PARTIAL = ("Model follows /repo HEAD incl. d9fca78 (Set), 2fc8894 (ABS), 7035970 (Log1pExp). Theorems are over the reals and about the hand-written register-file model coq/C01/Model.v: combinator algebra "
            "(all n, orders 0-2, all receiver/operand aliasing for one argument; two arguments except a receiver that is an "
            "operand of smaller N/order), coefficient correctness of Neg Sin Cos Sinh Cosh Tan Tanh Exp Log Log1p Pow(const) "
            "Add Sub Mul Div, Erf Erfc Gamma Lgamma relative to Section hypotheses, and the chain-rule bridge to partial "
